@@ -233,7 +233,8 @@ def _logic_rules(ctx, S):
     mc = S.function('map_comparison')
     table = None
     for n in ast.walk(mc.node):
-        if isinstance(n, ast.Assign) and isinstance(n.value, ast.Dict) and ast.unparse(n.targets[0]) == 'op_map':
+        if isinstance(n, ast.Assign) and isinstance(n.value, ast.Dict) and n.value.keys and all(
+                isinstance(k, ast.Constant) and k.value in ('==', '!=', '<', '<=', '>', '>=') for k in n.value.keys):
             table = {ast.literal_eval(k): ast.unparse(v).split('.')[-1] for k, v in zip(n.value.keys, n.value.values)}
     want = {'==': 'eq', '!=': 'ne', '<': 'lt', '<=': 'le', '>': 'gt', '>=': 'ge'}
     if table is None:
@@ -246,7 +247,10 @@ def _logic_rules(ctx, S):
             ctx.violation('R3', inst, mc.where, f'op_map maps `{k}` to operator.{table.get(k)} (expected operator.{v}): constant '
                           f'comparisons are folded to the wrong truth value', facts={'table': table})
     guards = [g for _, gs in X.nodes_with_guards(mc.node, lambda x: isinstance(x, ast.Call) and X.call_name_of(x) == 'LogicLiteral') for g in gs]
-    ok = any('is_constant(left) and is_constant(right)' in g for g in guards)
+    par = [a.arg for a in mc.node.args.args][1]
+    ln = (X.names_assigned_from(mc.node, f'self.rec({par}.left') or ['left'])[0]
+    rn = (X.names_assigned_from(mc.node, f'self.rec({par}.right') or ['right'])[0]
+    ok = any(f'is_constant({ln}) and is_constant({rn})' in g for g in guards)
     (ctx.judge('R3', 'map_comparison:folds-constants-only', facts={'guards': sorted(set(guards))}) if ok else
      ctx.violation('R3', 'map_comparison:folds-constants-only', mc.where, 'comparison folding is not guarded by both sides being constant'))
 
